@@ -127,6 +127,69 @@ def check_ids(ck, recs):
             ck.failures.append(f)
 
 
+def check_store(ck, recs):
+    """Store/load: blocks saved through Chain.AddBlock and read back through every DataAccess getter (block cache and a fresh
+    DataAccess on the same database) keep their IDs and re-encode to the stored bytes; ID = SHA-256 of the re-encoding."""
+    import hashlib
+    h = lambda x: hashlib.sha256(bytes.fromhex(x)).hexdigest()
+    for r in recs:
+        if r["k"] != "store":
+            continue
+        bad = []
+        if r["st"] != 0:
+            bad.append("panics/times out: %s" % r.get("panic"))
+        for b in r["blocks"]:
+            ck.count()
+            o = b["orig"]
+            ck.nontrivial(("store", b["gen"], len(o["txs"]), len(o["assets"]), len(b["events"]), r["cache"], o["hdr"][:24]))
+            if h(o["hdr"]) != o["id"]:
+                bad.append("height %d: original ID is not the hash of the header encoding" % b["height"])
+            for path, v in sorted(b["got"].items()):
+                if v.get("err"):
+                    bad.append("height %d %s: %s" % (b["height"], path, v["err"]))
+                    continue
+                if v["id"] != o["id"]:
+                    bad.append("height %d %s: block ID changed by store/load" % (b["height"], path))
+                if v["hdr"] != o["hdr"] or h(v["hdr"]) != v["id"]:
+                    bad.append("height %d %s: loaded header re-encodes to different bytes (ID not the hash of the re-encoding)" % (b["height"], path))
+                if "Header" not in path and (v["txs"] != o["txs"] or v["assets"] != o["assets"] or v["block"] != o["block"]):
+                    bad.append("height %d %s: transactions/assets/block bytes differ after load" % (b["height"], path))
+            for t in o["txs"]:
+                if h(t[1]) != t[0]:
+                    bad.append("height %d: transaction ID is not the hash of its encoding" % b["height"])
+            for path, v in sorted(b["tx_got"].items()):
+                if v != o["txs"]:
+                    bad.append("height %d %s: transaction IDs/bytes differ after load" % (b["height"], path))
+            for path, v in sorted(b["got_events"].items()):
+                if b["events"] == [] and (v == [] or (len(v) == 1 and v[0].startswith("err:"))):
+                    continue
+                if v != b["events"]:
+                    bad.append("height %d GetEvents(%s): events differ after load" % (b["height"], path))
+        if bad:
+            f = dict(kind="input", key="c08:store:spec", what="store/load through DataAccess: %s (seed %s, %d blocks, cache %d)" % (
+                "; ".join(bad[:4]), r["seed"], r["n"], r["cache"]), case={k: r[k] for k in ("k", "seed", "n", "cache")})
+            f["spec_violated"] = True
+            f["theorem_or_correspondence"] = "C08 store/load oracle (hashlib.sha256)"
+            ck.failures.append(f)
+
+
+def check_nil(ck, recs):
+    """[]*T with nil elements / nil nested pointers in locally built values: Encode must not panic and must write exactly what it
+    writes for the value without them (the projection to the model's values drops nil elements)."""
+    for r in recs:
+        if r["k"] != "nil":
+            continue
+        ck.count()
+        ck.nontrivial(("nil", r["name"], r["n"], r["d"][:16]))
+        if r["st"] != 0 or not r["same"]:
+            f = dict(kind="input", key="c08:nil:%s:spec" % r["name"], case=r,
+                     what="Encode of %s with %d nil slice elements %s: %s" % (r["name"], r["n"], "panics (%s)" % r.get("panic") if r["st"] else
+                                                                          "differs from Encode without them", json.dumps(r)[:300]))
+            f["spec_violated"] = True
+            f["theorem_or_correspondence"] = "C08 nil-element oracle"
+            ck.failures.append(f)
+
+
 def case_key(r):
     if r["k"] in ("r", "w"):
         return "c08:%s:%s" % ("Read" if r["k"] == "r" else "Write", OPNAMES[r["op"]])
@@ -165,6 +228,8 @@ def evaluate(ck, recs):
                 ck.failures.append(f)
     ck.extra["skipped_nfc_undecided"] = ck.extra.get("skipped_nfc_undecided", 0) + skipped
     check_ids(ck, recs)
+    check_store(ck, recs)
+    check_nil(ck, recs)
 
 
 def nontrivial(ck, r):
